@@ -42,6 +42,11 @@ def number_case(draw):
     kind = draw(st.sampled_from(['int', 'dec', 'dotdec', 'pct', 'pow']))
     if kind == 'int':
         s = draw(digits)
+        if draw(st.integers(0, 5)) == 0:
+            # a long spelling (up to the 4300 digits the interpreter converts): a short block repeated, every digit counts
+            n = draw(st.one_of(st.sampled_from([26, 100, 308, 309, 310, 311, 1000, 4000]), st.integers(26, 4000)))
+            block = draw(short_digits)
+            s = (block * (n // len(block) + 1))[:n]
     elif kind == 'dec':
         s = draw(short_digits) + '.' + draw(short_digits)
         if draw(st.integers(0, 5)) == 0:
@@ -382,9 +387,10 @@ tree_case = st.fixed_dictionaries({'tree': trees(), 'spacing': gf.spacing_s, 'le
 
 LAWS = [
     Law('number_literals', check_number, strategy=number_case(), quick=4000, thorough=200000, shards=(8, 16),
-        classes=lambda c: (c['kind'], 'ctx:' + c['ctx']), required=('int', 'dec', 'dotdec', 'pct', 'pow', 'ctx:neg', 'ctx:call'),
+        classes=lambda c: (c['kind'], 'ctx:' + c['ctx'], 'digits>309' if c['kind'] == 'int' and len(c['s']) > 309 else 'digits<=309'),
+        required=('int', 'dec', 'dotdec', 'pct', 'pow', 'ctx:neg', 'ctx:call', 'digits>309'),
         nontrivial=lambda c: len(c['s']) >= 2,
-        rule='digits (1-25, leading zeros allowed), d.d, .d, d%, d^d alone and embedded (-lit, lit+1, ID(lit), (lit), {lit,1}, lit=lit): the value is exactly the spelled number '
+        rule='digits (1-25, and one case in thirty 26-4000, leading zeros allowed), d.d, .d, d%, d^d alone and embedded (-lit, lit+1, ID(lit), (lit), {lit,1}, lit=lit): the value is exactly the spelled number '
              '(Python int; correctly rounded double of the decimal; n% within one rounding of n/100; a^b exact); non-trivial = two or more characters'),
     Law('string_literals', check_string, strategy=string_case(), key=string_key, quick=4000, thorough=200000, shards=(8, 16),
         classes=lambda c: ('q:' + c['q'], 'ctx:' + c['ctx'], 'backslash' if '\\' in c['s'] else 'plain', 'otherquote' if ('"' in c['s'] or "'" in c['s']) else 'noquote'),
